@@ -260,7 +260,7 @@ def _check_backend_faults(ctx, rep):
         "get_size": lambda b: b.get_size("data/a"),
         "get_modified_time": lambda b: b.get_modified_time("data/a") > 0,
         "delete_file": lambda b: b.delete_file("data/zz"),
-        "write_file": lambda b: b.write_file("data/w", b"x"),
+        "write_file": lambda b: (b.write_file("data/w", b"payload-" * 40), b.s3.objects["tbl/data/w"].data)[1],
         "read_file_with_etag": lambda b: b.read_file_with_etag("data/a")[0],
         "open_file": lambda b: b.open_file("data/a").read(),
     }
@@ -279,6 +279,14 @@ def _check_backend_faults(ctx, rep):
             if name in ("read_file", "read_file_with_etag"):     # (open_file hands the stream to its caller: reading it is the caller's)
                 # the request succeeds and the DOWNLOAD of the body breaks (connection reset mid-stream): transient like any other
                 plans += [[("B", "stream")], [("B", "stream")] * 3, ["T", ("B", "stream")]]
+                plans += [[("B", fl)] * k_ for fl in ("incomplete", "readtimeout", "closed") for k_ in (1, 3)]
+            # connection-level failures raised by the client itself (no HTTP answer at all): transient
+            for exc_ in ("EndpointConnectionError", "ConnectTimeoutError", "ConnectionClosedError"):
+                plans += [[("T", "exc:" + exc_)], [("T", "exc:" + exc_)] * 5]
+            if name == "write_file":
+                # the upload breaks AFTER the request body went out (a stream body is consumed by then): the retry must send the
+                # same bytes again, not what is left of a consumed stream
+                plans += [[("U", "sent")], [("U", "sent")] * 3, ["T", ("U", "sent")]]
             for plan in plans:
                 fake2 = fakes3.FakeS3()
                 be2 = fakes3.make_backend("tbl", True, fake2)
@@ -292,16 +300,32 @@ def _check_backend_faults(ctx, rep):
                     nxt_kind = (nxt if isinstance(nxt, str) else nxt[0]) if nxt is not None else None
                     if op == "body-read":
                         if nxt_kind == "B":
+                            flavour = state["left"].pop(0)[1]
+                            import botocore.exceptions as bx
+                            if flavour == "incomplete":
+                                raise bx.IncompleteReadError(actual_bytes=2, expected_bytes=5)
+                            if flavour == "readtimeout":
+                                raise bx.ReadTimeoutError(endpoint_url="https://example.invalid")
+                            if flavour == "closed":
+                                raise bx.ConnectionClosedError(endpoint_url="https://example.invalid")
+                            raise bx.ResponseStreamingError(error="connection reset while streaming the body")
+                        return
+                    if op == "put-body-sent":
+                        if nxt_kind == "U":
                             state["left"].pop(0)
-                            from botocore.exceptions import ResponseStreamingError
-                            raise ResponseStreamingError(error="connection reset while streaming the body")
+                            import botocore.exceptions as bx
+                            raise bx.ConnectionClosedError(endpoint_url="https://example.invalid")
                         return
                     if op == "list-page":
                         return
                     state["n"] += 1
-                    if state["left"] and nxt_kind != "B":
+                    if state["left"] and nxt_kind not in ("B", "U"):
                         f = state["left"].pop(0)
                         kind_, code_ = (f, "SlowDown" if f == "T" else "AccessDenied") if isinstance(f, str) else f
+                        if code_.startswith("exc:"):
+                            import botocore.exceptions as bx
+                            cls_ = getattr(bx, code_[4:])
+                            raise cls_(endpoint_url="https://example.invalid", error="unreachable")
                         raise fakes3.client_error(code_, op)
                 fake2.hook = hook
                 rep.evaluations += 1
@@ -313,7 +337,7 @@ def _check_backend_faults(ctx, rep):
                     outcome = ("raise", (getattr(e, "response", None) or {}).get("Error", {}).get("Code", type(e).__name__))
                 kinds_ = [p if isinstance(p, str) else p[0] for p in plan]
                 pcode_ = next((("AccessDenied" if isinstance(p, str) else p[1]) for p in plan if (p if isinstance(p, str) else p[0]) == "P"), None)
-                nT = len([k_ for k_ in kinds_ if k_ in ("T", "B")])
+                nT = len([k_ for k_ in kinds_ if k_ in ("T", "B", "U")])
                 if "P" in kinds_:
                     if outcome != ("raise", pcode_) or state["n"] != kinds_.index("P") + 1:
                         rep.violate("C20:permanent-error-retried-or-swallowed", f"{name} under {plan}: {outcome}, {state['n']} requests",
